@@ -69,6 +69,7 @@ func init() {
 			if mode != "io" {
 				c.DFS(fmt.Sprintf("c01/%s/2c-1x1", mode), explore.Bounds{Preempt: c.Pick(1, 3), Dev: 1, POR: true})
 			}
+			c.DFS(fmt.Sprintf("c01/%s/errors", mode), explore.Bounds{Preempt: c.Pick(1, 2), Dev: 0, POR: true, MaxExec: c.Pick(1500, 60000)})
 			c.DFS(fmt.Sprintf("c01/%s/ops", mode), explore.Bounds{Preempt: c.Pick(1, 2), Dev: 0, POR: true, MaxExec: c.Pick(2500, 100000)})
 			if mode == "ls" || mode == "ss" {
 				c.DFS(fmt.Sprintf("c01/%s/noise", mode), explore.Bounds{Preempt: c.Pick(2, 3), Dev: 1, POR: true, MaxExec: c.Pick(6000, 200000)})
@@ -905,4 +906,75 @@ func c01LostEval(tier string, i int) CaseResult {
 func init() {
 	RegisterEnum(&Enum{Name: "c01/lost-response", Doc: "the server handles a request, the keep-alive connection dies before the first byte of the answer (EOF / reset / closed idle connection), no retry configured: 5 HTTP modes x {CallTool, GetPrompt, ReadResource}; the handler ran once, the request arrived once, the call fails, a later call gets its own answer",
 		Count: func(string) int { return 5 * len(c01LostOps) * len(c01LostErrs) }, Eval: c01LostEval})
+}
+
+// ---- error answers in flight ----------------------------------------------------------------------
+//
+// "That outcome is the server's answer to that very request" also when the answer is a JSON-RPC
+// error: two calls that fail for different reasons (each error text names what was asked for) and one
+// that succeeds, in flight together on one client.
+func c01Errors(prefix []int, mode string) explore.Outcome {
+	var viol []explore.Violation
+	obs := &hx.Log{}
+	k := func(s string) string { return s + ":" + mode }
+	res := vsched.Run(cfgFor(prefix), func() {
+		vsched.SetBranching(false)
+		r := NewRig(mode)
+		calls := &hx.Log{}
+		r.EchoTool(calls)
+		r.RegisterTool(mcp.NewTool("fails", mcp.WithString("why")), func(ctx context.Context, req *mcp.CallToolRequest) (*mcp.CallToolResult, error) {
+			why, _ := req.Params.Arguments["why"].(string)
+			return nil, fmt.Errorf("refused because of %s", why)
+		})
+		r.Start()
+		cl, err := r.Connect()
+		if err != nil {
+			viol = append(viol, V("setup-handshake-fails", "setting the scenario up with well-behaved peers fails: %v", err))
+			return
+		}
+		vsched.Quiesce()
+		vsched.SetBranching(true)
+		type outc struct {
+			text string
+			err  error
+			done bool
+		}
+		outs := make([]outc, 3)
+		call := func(i int, name string, args map[string]interface{}) {
+			vsched.Go(fmt.Sprintf("caller-%d", i), func() {
+				rq := &mcp.CallToolRequest{}
+				rq.Params.Name = name
+				rq.Params.Arguments = args
+				o, e := cl.CallTool(context.Background(), rq)
+				outs[i] = outc{TextOf(o), e, true}
+			})
+		}
+		call(0, "fails", map[string]interface{}{"why": "reason-ALPHA-" + strings.Repeat("a", 300)})
+		call(1, "echo", map[string]interface{}{"nonce": "N1"})
+		call(2, "fails", map[string]interface{}{"why": "reason-BETA"})
+		vsched.Quiesce()
+		wantErr := []string{"reason-ALPHA-", "", "reason-BETA"}
+		for i, o := range outs {
+			switch {
+			case !o.done:
+				viol = append(viol, V(k("errors-call-hangs"), "call %d did not return; blocked: %v", i, vsched.LiveThreads()))
+			case wantErr[i] == "" && (o.err != nil || o.text != "echo:N1"):
+				viol = append(viol, V(k("errors-wrong-outcome"), "the successful call, in flight with failing ones, returned %q, %v", o.text, o.err))
+			case wantErr[i] != "" && o.err == nil:
+				viol = append(viol, V(k("errors-wrong-outcome"), "call %d must fail (%s) but returned %q", i, wantErr[i], o.text))
+			case wantErr[i] != "" && !strings.Contains(o.err.Error(), wantErr[i]):
+				viol = append(viol, V(k("errors-foreign-error"), "call %d failed with an error that is not its own (%s expected in it): %s", i, wantErr[i], truncate(o.err.Error(), 200)))
+			}
+		}
+		obs.Add("done")
+	})
+	return finishOutcome(res, obs, viol, true)
+}
+
+func init() {
+	for _, mode := range AllModes {
+		mode := mode
+		RegisterScenario(&Scenario{Name: "c01/" + mode + "/errors", Run: func(p []int, m []vsched.ChoicePoint) explore.Outcome { return c01Errors(p, mode) },
+			Doc: "three calls in flight on one client: two whose handler fails with different texts, one success; every caller gets its own outcome"})
+	}
 }
